@@ -1,12 +1,12 @@
 #!/venv/bin/python
 """Generate the TLC configurations of the core spec (one family per property). Run from spec/core."""
 ALL = ["CreateGroup", "CreateObject", "AddData", "CreateWithUid", "Rename", "SetFlag", "SetVal", "Move", "MoveSame", "AddToGroup",
-       "AddDataFails", "StripOpt", "SaveAs", "Helper",
+       "AddDataFails", "StripOpt", "SaveAs", "Helper", "Copy2", "Remove2", "ScrubData", "CreateDeferred",
        "RemoveFromGroup", "RemovePG", "RemoveViaWorkspace", "RemoveViaParent", "DropRef", "Collect", "Purge",
        "LookupDead", "Copy", "Close", "Open", "CallClosed"]
-INV_ASBUILT = ["TypeOK", "DirtyOnlyInRW", "ReopenEqualsLive", "LinksToNodes", "OneParent", "PGPropsAreChildren", "WriteThrough",
+INV_ASBUILT = ["TypeOK", "DirtyOnlyInRW", "W2WellFormed", "ReopenEqualsLive", "LinksToNodes", "OneParent", "PGPropsAreChildren", "WriteThrough",
                "NoDanglingPG", "RegistryMatchesMemory"]
-PROPS = ["Footprint", "FrozenFile", "OptStaysStripped"]
+PROPS = ["Footprint", "FrozenFile", "OptStaysStripped", "FreshOnlyWhenTaken"]
 
 
 def cfg(name, ng, no, nd, np_, acts, depth, devs=("CloseKeepsOrphans",), export=True, extra_inv=(), names=("a", "b"),
@@ -30,11 +30,14 @@ def minus(*drop):
 
 
 GC = ["DropRef", "Collect", "Purge", "LookupDead"]
-NEW = ["MoveSame", "AddDataFails", "StripOpt", "SaveAs", "Helper"]
+NEW = ["MoveSame", "AddDataFails", "StripOpt", "SaveAs", "Helper", "Copy2", "Remove2", "ScrubData", "CreateDeferred"]
 BASE = minus("CreateWithUid", "CallClosed", *NEW)
 # --- C01: histories of create/assign/rename/move/copy/delete with close/re-open and GC points
-cfg("C01_quick", 1, 1, 1, 1, [a for a in BASE if a != "SetFlag"] + ["MoveSame"], 7, names=("a",), vals=(1, 2))
-cfg("C01_thorough", 2, 1, 2, 1, BASE + ["MoveSame", "AddDataFails", "SaveAs"], 6, names=("a", "b"))
+cfg("C01_quick", 1, 1, 1, 1, [a for a in BASE if a != "SetFlag"] + ["MoveSame", "CreateDeferred"], 6, names=("a",), vals=(1, 2))
+# property-group bookkeeping under list removals, in both orders (data in overlapping groups)
+cfg("C01pg_quick", 0, 1, 3, 2, ["CreateObject", "AddData", "AddToGroup", "ScrubData", "RemoveFromGroup", "Close", "Open"], 8,
+    names=("a", "b"), vals=(1,))
+cfg("C01_thorough", 2, 1, 2, 1, BASE + ["MoveSame", "AddDataFails", "SaveAs", "CreateDeferred"], 6, names=("a", "b"))
 # --- C02: layout of every closed file: removals, re-parenting, copies, failed writes, closes
 C02A = ["CreateGroup", "CreateObject", "AddData", "Move", "MoveSame", "AddToGroup", "RemoveViaWorkspace", "RemoveViaParent",
         "Copy", "Close", "Open", "AddDataFails"] + GC
@@ -50,6 +53,10 @@ C06A = ["CreateGroup", "CreateObject", "AddData", "CreateWithUid", "RemoveViaWor
         "Open"] + GC
 cfg("C06_quick", 2, 1, 1, 1, C06A, 6, names=("a",), vals=(1,))
 cfg("C06_thorough", 2, 2, 2, 1, C06A + ["AddToGroup"], 6, names=("a",), vals=(1,))
+# cross-workspace copies: identifiers kept when free in the target, fresh otherwise (also after freeing them again)
+C06X = ["CreateGroup", "CreateObject", "AddData", "AddToGroup", "Copy2", "Remove2", "RemoveViaWorkspace", "Copy"]
+cfg("C06x_quick", 1, 1, 1, 1, C06X, 8, names=("a",), vals=(1,))
+cfg("C06x_thorough", 2, 1, 2, 1, C06X + ["Close", "Open"], 6, names=("a",), vals=(1,))
 # --- C09: every single mutation applied to every reachable state; footprint; files with omitted optional attributes
 cfg("C09_quick", 1, 1, 1, 1, [a for a in BASE if a != "LookupDead"] + ["MoveSame", "StripOpt"], 6, names=("a", "b"), vals=(1, 2))
 cfg("C09_thorough", 2, 1, 2, 2, BASE + ["MoveSame", "StripOpt", "AddDataFails"], 6, names=("a", "b"), vals=(1, 2))
@@ -63,6 +70,9 @@ cfg("C11_thorough", 2, 1, 2, 1, C11A + ["Move", "Copy", "AddToGroup", "Collect",
 C12A = ["CreateGroup", "CreateObject", "AddData", "AddToGroup", "Copy", "SetVal", "Rename", "Close", "Open"]
 cfg("C12_quick", 2, 2, 2, 2, C12A, 5, names=("a", "b"), vals=(1, 2))
 cfg("C12_thorough", 3, 2, 4, 2, C12A + ["SetFlag", "Move"], 6, names=("a", "b"), vals=(1, 2))
+C12X = ["CreateGroup", "CreateObject", "AddData", "AddToGroup", "Copy2", "Remove2", "SetVal", "Rename"]
+cfg("C12x_quick", 1, 1, 2, 1, C12X, 6, names=("a", "b"), vals=(1, 2))
+cfg("C12x_thorough", 2, 1, 2, 2, C12X + ["Close", "Open", "Copy"], 6, names=("a", "b"), vals=(1, 2))
 # --- random simulation with larger constants (thorough tiers): long behaviours, more entities
 cfg("Sim_all", 3, 2, 4, 2, minus("CallClosed"), 60, names=("a", "b"), vals=(1, 2))
 cfg("Sim_remove", 3, 2, 4, 2, C05A + ["RemoveFromGroup", "Move", "MoveSame", "CreateWithUid", "AddDataFails"], 60,
